@@ -121,10 +121,10 @@ Dbg == cfg.debug /\ (~cfg.latedebug \/ cl.lateOn \/ (cl.pc = "authMsg" /\ cl.ast
 LogEvs(cred, code) ==
   IF ~Dbg THEN <<>>
   ELSE LET red == cl.authWin IN
-       << [ev |-> "log", dir |-> "c2s", leak |-> (cred /\ ~red), post |-> cl.authOver, verbatim |-> ~red] >>
+       << [ev |-> "log", dir |-> "c2s", leak |-> (cred /\ ~red), post |-> cl.authOver, verbatim |-> ~red, after |-> FALSE] >>
 LogReply(code, ch) ==
   IF ~Dbg \/ Lost(ch.c) THEN <<>>
-  ELSE << [ev |-> "log", dir |-> "s2c", leak |-> FALSE, post |-> cl.authOver,
+  ELSE << [ev |-> "log", dir |-> "s2c", leak |-> FALSE, post |-> cl.authOver, after |-> FALSE,
            verbatim |-> ~(cl.authWin /\ code >= 300 /\ code <= 400)] >>
 
 RECURSIVE ObsAll(_, _)
